@@ -1,4 +1,264 @@
 import XmpProofs.Resource
-/-! # C04 — failed or faulted operations are atomic (property theorems; under construction) -/
+/-!
+# C04 — Failed or faulted operations are atomic: no leak, no residue, context reusable
+
+Property theorems over the resource-ledger model `XmpModel.Resource` (heap ledger `World.live`
+as a multiset, invalid-operation counter `World.bad`, descriptors, temp files, close log).
+Every theorem quantifies over an arbitrary `World`, i.e. over **every pattern of allocation
+failures** (`World.oracle`), not only a single failing allocation.
+
+Multiset equality of ledgers is stated by counting: `∀ u, l₁.count u = l₂.count u`.
+-/
 namespace Xmp.Resource
+
+/-- **xmp_release_module is total on partial modules.**  For ANY partially built module (any
+subset of tables allocated, any entries non-NULL; `wf`: entries only under a non-NULL table) whose
+blocks are live (`Sub`: each referenced once), in any player state: every owned block is freed
+exactly once (`bad` unchanged = no invalid/double free; the ledger shrinks by exactly the owned
+blocks), all pointers are NULL afterwards (`module = {}`), the player is ended and the state is
+UNLOADED.  This is why the format loaders need no unwinding for the module tables. -/
+theorem C04_release_total (c : MCtx) (w : World) (hwf : c.module.wf = true)
+    (hpl : c.state = .playing → (c.player.voiceArray.isSome ∨ c.player.paula = []))
+    (hnp : c.state ≠ .playing → c.player.toks = [])
+    (hown : Sub c.toks w.live) :
+    let r := releaseModule c w
+    r.2.bad = w.bad ∧ (∀ u, r.2.live.count u + c.toks.count u = w.live.count u)
+      ∧ r.1.module = {} ∧ r.1.state = .unloaded ∧ r.1.player.toks = [] ∧ SameEnv w r.2 :=
+  release_total c w hwf hpl hnp hown
+
+/-- non-trivial instance: a module with a track table (one entry still NULL), a pattern table, an
+instrument with extras, MED module extras and a directory name, while playing an Amiga module -/
+example :
+    let m : Module := { xxt := { ptr := some ⟨.xxt, 0⟩, entries := [some ⟨.track, 0⟩, none] },
+                        xxp := { ptr := some ⟨.xxp, 0⟩, entries := [some ⟨.pattern, 0⟩] },
+                        xxi := some ⟨.xxi, 0⟩, subs := [some ⟨.sub, 0⟩], insExtras := [some ⟨.insExtra, 0⟩],
+                        dirname := some ⟨.dirname, 0⟩,
+                        extra := .med ⟨.modExtra, 0⟩ { ptr := some ⟨.modExtraTab, 0⟩, entries := [some ⟨.modExtraEnt, 0⟩] } {} }
+    let p : Player := { buffer := some ⟨.mixBuffer, 0⟩, voiceArray := some ⟨.voiceArray, 0⟩, paula := [some ⟨.paula, 0⟩] }
+    let c : MCtx := { state := .playing, player := p, module := m }
+    m.wf = true ∧ (releaseModule c { live := c.toks }).2.live = [] ∧ (releaseModule c { live := c.toks }).2.bad = 0 := by
+  decide +kernel
+
+/-- the hypothesis matters: an entry under a NULL table is not released (it leaks) -/
+theorem C04_release_needs_wf :
+    (releaseModule { module := { xxt := { ptr := none, entries := [some ⟨.track, 0⟩] } } }
+      { live := [⟨.track, 0⟩] }).2.live ≠ [] := by decide +kernel
+
+/-- **xmp_start_player is atomic** for every unwinding table that passes the decidable check
+`Sound` (the table of the current player.c is regenerated into `Gen.StartCfg` and evaluated by the
+check on every run), for every module shape `pp` and every allocation oracle: the ledger is never
+corrupted; on failure the return value is negative, the state is still LOADED, no player block is
+owned and the heap ledger is (as a multiset) exactly what it was; otherwise the return value is 0,
+the state PLAYING and the ledger grew by exactly the blocks the player fields point to. -/
+theorem C04_start_atomic (cfg : StartCfg) (hs : cfg.Sound = true) (pp : StartParams) (w : World) :
+    let r := startPlayer cfg pp true { state := .loaded, player := {} } w
+    r.2.2.bad = w.bad ∧
+    (r.1 < 0 → r.2.1.state = .loaded ∧ r.2.1.player.toks = [] ∧ ∀ u, r.2.2.live.count u = w.live.count u) ∧
+    (¬ r.1 < 0 → r.1 = 0 ∧ r.2.1.state = .playing ∧ Owns r.2.1.player r.2.2 w.live) :=
+  start_atomic cfg hs pp w
+
+/-- the repaired table (what player.c contains after fix dfdfe92) is sound -/
+def startCfgFixed : StartCfg := .ofTables
+  [("mixer_on", "", true), ("virt_on", "err", true), ("flow_loop", "err1", true), ("xc_data", "err1", true),
+   ("channel_extras", "err2", false)]
+  [("err2", ["channel_extras", "xc_data"], true), ("err1", ["flow_loop", "virt_off"], false), ("err", ["mixer_off"], false)]
+
+theorem C04_start_fixed_sound : startCfgFixed.Sound = true := by decide +kernel
+
+/-- non-trivial instance: an Amiga module with channel extras, the 8th allocation fails -/
+example :
+    let r := startPlayer startCfgFixed { amiga := true, extras := true, maxvoc := 4, virtch := 4 } true
+      { state := .loaded } { oracle := List.replicate 7 true ++ [false] }
+    r.1 < 0 ∧ r.2.2.live = [] ∧ r.2.2.bad = 0 ∧ r.2.2.nalloc = 8 := by decide +kernel
+
+/-- the table of commit 3c5459a (`goto err` when `f->loop` cannot be allocated) is not sound … -/
+def startCfg_3c5459a : StartCfg := .ofTables
+  [("mixer_on", "", true), ("virt_on", "err", true), ("flow_loop", "err", true), ("xc_data", "err1", true),
+   ("channel_extras", "err2", false)]
+  [("err2", ["channel_extras", "xc_data"], true), ("err1", ["flow_loop", "virt_off"], false), ("err", ["mixer_off"], false)]
+
+/-- … and really leaks: witness replayed on the real code by the harness (test.xm, k = 4) -/
+theorem C04_start_counterexample_3c5459a :
+    startCfg_3c5459a.Sound = false ∧
+    (startPlayer startCfg_3c5459a { maxvoc := 4, virtch := 4 } true { state := .loaded }
+        { oracle := [true, true, true, true, false] }).2.2.live = [⟨.virtChannel, 0⟩, ⟨.voiceArray, 0⟩] := by
+  decide +kernel
+
+/-- the pinned code (no release at all on the error paths, `return 0` after a failed
+channel-extras allocation) -/
+def startCfg_pinned : StartCfg := .ofTables
+  [("mixer_on", "", true), ("virt_on", "err", true), ("flow_loop", "err", true), ("xc_data", "err1", true),
+   ("channel_extras", "err2", false)]
+  [("err2", ["xc_data"], false), ("err1", ["flow_loop"], false), ("err", [], false)]
+
+theorem C04_start_counterexample_pinned :
+    (startPlayer startCfg_pinned { extras := true, maxvoc := 1, virtch := 2 } true { state := .loaded }
+        { oracle := List.replicate 6 true ++ [false] }).1 = 0 := by
+  decide +kernel
+
+/-- **load_module with an arbitrary loader result is atomic.**  Whatever the format loader built
+before failing (`built`: any well-formed partial module, all of it allocated inside the call) and
+wherever the failure is detected (no format, loader error / sanity checks, prepare_scan,
+scan_sequences), the call returns a negative code, the state is UNLOADED, the module is empty, and
+the ledger is what it was minus the caller-allocated dirname/basename, which are released too. -/
+theorem C04_load_atomic (out : LoadOutcome) (hout : out ≠ .ok) (built : Module) (hwf : built.wf = true)
+    (hd : built.dirname = none) (hb : built.basename = none)
+    (c : MCtx) (hst : c.state = .unloaded) (hp : c.player.toks = []) (w : World)
+    (hown : Sub (ptrs [c.module.dirname, c.module.basename]) w.live) :
+    let r := loadModule out built c w
+    r.1 < 0 ∧ r.2.1.state = .unloaded ∧ r.2.1.module = {} ∧ r.2.2.bad = w.bad ∧
+      ∀ u, r.2.2.live.count u + (ptrs [c.module.dirname, c.module.basename]).count u = w.live.count u := by
+  have key : ∀ u, ({ built with dirname := c.module.dirname, basename := c.module.basename } : Module).toks.count u
+      = built.toks.count u + (ptrs [c.module.dirname, c.module.basename]).count u := by
+    intro u
+    simp only [Module.toks, List.count_append, hd, hb]
+    cases c.module.dirname <;> cases c.module.basename <;> cases built.scan <;> cases built.comment <;>
+      simp [List.count_cons] <;> omega
+  have hwf1 : ({ built with dirname := c.module.dirname, basename := c.module.basename } : Module).wf = true := by
+    simpa [Module.wf] using hwf
+  have hrel := release_total
+    { c with module := { built with dirname := c.module.dirname, basename := c.module.basename } }
+    { w with live := built.toks ++ w.live } hwf1 (by intro h; simp [hst] at h) (fun _ => hp) (by
+      intro u
+      have := hown u
+      simp only [MCtx.toks, List.count_append, hp, List.count_nil, Nat.zero_add, key]
+      omega)
+  obtain ⟨a, b, c3, d, _, _⟩ := hrel
+  have hcount : ∀ u, (releaseModule
+      { c with module := { built with dirname := c.module.dirname, basename := c.module.basename } }
+      { w with live := built.toks ++ w.live }).2.live.count u
+        + (ptrs [c.module.dirname, c.module.basename]).count u = w.live.count u := by
+    intro u
+    have := b u
+    simp only [MCtx.toks, List.count_append, hp, List.count_nil, Nat.zero_add, key] at this
+    omega
+  cases out with
+  | ok => exact absurd rfl hout
+  | formatFail => exact ⟨by simp [loadModule, errFormat, errLoad, errSystem], d, c3, a, hcount⟩
+  | loaderFail => exact ⟨by simp [loadModule, errFormat, errLoad, errSystem], d, c3, a, hcount⟩
+  | prepareScanFail => exact ⟨by simp [loadModule, errFormat, errLoad, errSystem], d, c3, a, hcount⟩
+  | scanFail => exact ⟨by simp [loadModule, errFormat, errLoad, errSystem], d, c3, a, hcount⟩
+
+/-- non-trivial instance: the loader allocated the pattern table and two of three tracks, then failed -/
+example :
+    let built : Module := { xxt := { ptr := some ⟨.xxt, 0⟩, entries := [some ⟨.track, 0⟩, some ⟨.track, 1⟩, none] },
+                            xxp := { ptr := some ⟨.xxp, 0⟩, entries := [none] } }
+    let c : MCtx := { module := { dirname := some ⟨.dirname, 0⟩, basename := some ⟨.basename, 0⟩ } }
+    let r := loadModule .loaderFail built c { live := [⟨.dirname, 0⟩, ⟨.basename, 0⟩] }
+    r.1 < 0 ∧ r.2.2.live = [] ∧ r.2.2.bad = 0 := by decide +kernel
+
+/-- **Reusable.**  After a failed load the model context *is* the fresh context (same state, empty
+module, untouched player), so every later operation behaves as on a fresh context. -/
+theorem C04_reusable (out : LoadOutcome) (hout : out ≠ .ok) (built : Module) (c : MCtx) (w : World)
+    (hst : c.state = .unloaded) :
+    (loadModule out built c w).2.1 = { state := .unloaded, player := c.player, module := {} } := by
+  have he : ∀ (m : Module) (w' : World), (releaseModule { c with module := m } w').1
+      = { state := .unloaded, player := c.player, module := {} } := by
+    intro m w'
+    simp [releaseModule, endPlayer, hst]
+  cases out with
+  | ok => exact absurd rfl hout
+  | formatFail => exact he _ _
+  | loaderFail => exact he _ _
+  | prepareScanFail => exact he _ _
+  | scanFail => exact he _ _
+
+/- Full statement of reusability after a failed **start** (kept as the goal; not proved at the
+model level): `startPlayer cfg pp true r.2.1 w'` after a failure `r` yields the same return code,
+state and ledger as on a fresh LOADED context.  What is proved: `C04_start_atomic` gives state
+LOADED, no owned player block and an unchanged ledger; the stale `maxvoc/virt_channels` values are
+overwritten by `virtInit`.  The harness checks this dynamically (PCM digest of a normal start+play
+on the same context against a fresh context after every faulted start). -/
+
+/-- **Temp files.**  For every table of make_temp_file passing `TempCfg.Sound` (regenerated from
+tempfile.c and evaluated on every run), every outcome of mkstemp/fdopen/helper/fseek/get_size and
+every allocation oracle, the path operation (open, decrunch with an external helper, load or test,
+hio_close, unlink_temp_file) leaves no temp file, no descriptor and no block behind and performs
+no invalid free/unlink. -/
+theorem C04_tempfile (cfg : TempCfg) (hs : cfg.Sound = true) (sys : HelperSys) (loadRc : Int) (w : World) :
+    let r := pathOpWithHelper cfg sys loadRc w
+    r.2.tempFiles = w.tempFiles ∧ r.2.openFds = w.openFds ∧ r.2.bad = w.bad ∧ r.2.live = w.live :=
+  tempfile_atomic cfg hs sys loadRc w
+
+def tempCfgFixed : TempCfg := .ofTables [("strdup", "err"), ("mkstemp", "err2"), ("fdopen", "err3")]
+  [("err3", ["close_fd", "unlink_name"]), ("err2", ["free_name", "null_name"]), ("err", [])]
+
+theorem C04_tempfile_fixed_sound : tempCfgFixed.Sound = true := by decide +kernel
+
+/-- the pinned make_temp_file (frees `*filename` but leaves it set): the caller's
+unlink_temp_file unlinks and frees it again — replayed on the real code with a missing TMPDIR -/
+def tempCfg_pinned : TempCfg := .ofTables [("strdup", "err"), ("mkstemp", "err2"), ("fdopen", "err3")]
+  [("err3", ["close_fd"]), ("err2", ["free_name"]), ("err", [])]
+
+theorem C04_tempfile_counterexample_pinned :
+    (pathOpWithHelper tempCfg_pinned { mkstempOk := false } 0 {}).2.bad = 2 ∧
+    (pathOpWithHelper tempCfg_pinned { fdopenOk := false } 0 {}).2.tempFiles = 1 := by decide +kernel
+
+/-- **Stream ownership (partial).**  Proved here for `open ; close` through every entry point and
+every allocation oracle: the caller's FILE is never closed, a library-opened FILE is closed and its
+descriptor released, the close callback is called exactly once — also when cbopen refuses the
+callbacks or hio_open_callbacks fails — and no block is left.
+Full statement (goal): the same for every sequence `open_x ; reopen* ; close` (`streamLife` with an
+arbitrary `reopens` list).  Missing: the induction over the reopen list; sequences up to the depth
+the depackers produce are evaluated on the model by the driver and compared with the real close
+counts by the harness. -/
+theorem C04_stream_ownership_partial (e : Entry) (cb : Callbacks) (sizeOk : Bool) (w : World) :
+    let r := streamLife e cb sizeOk [] w
+    (r.2.closed.count .callerFile = w.closed.count .callerFile) ∧
+    (r.2.closed.count .callback = w.closed.count .callback + (if e = .cb ∧ cb.hasClose then 1 else 0)) ∧
+    r.2.openFds = w.openFds ∧ r.2.bad = w.bad ∧ r.2.live = w.live := by
+  unfold streamLife openEntry
+  cases e
+  · -- path
+    unfold hioOpenPath
+    rcases alloc_cases w ⟨.hio, 0⟩ with ha | ha <;> rw [ha]
+    · simp
+    · cases sizeOk <;>
+        simp [reopenSeq, hioClose, hioCloseInternal, World.fcloseOwned, World.free, List.count_cons]
+  · -- mem
+    unfold hioOpenMem
+    rcases alloc_cases w ⟨.hio, 0⟩ with ha | ha <;> rw [ha]
+    · simp
+    · simp only
+      generalize hw1 : ({ w with oracle := w.oracle.tail, nalloc := w.nalloc + 1, live := ⟨.hio, 0⟩ :: w.live } : World) = w1
+      have h1 : w1.live = ⟨.hio, 0⟩ :: w.live ∧ w1.bad = w.bad ∧ w1.closed = w.closed ∧ w1.openFds = w.openFds := by
+        subst hw1; simp
+      obtain ⟨l1, b1, c1, f1⟩ := h1
+      rcases alloc_cases w1 ⟨.mfile, 0⟩ with hb | hb <;> rw [hb]
+      · simp [World.free, l1, b1, c1, f1]
+      · simp [reopenSeq, hioClose, hioCloseInternal, World.free, l1, b1, c1, f1, List.erase_cons]
+  · -- file
+    unfold hioOpenFile
+    rcases alloc_cases w ⟨.hio, 0⟩ with ha | ha <;> rw [ha]
+    · simp
+    · cases sizeOk <;> simp [reopenSeq, hioClose, hioCloseInternal, World.free]
+  · -- callbacks
+    obtain ⟨valid, hasClose, szOk⟩ := cb
+    unfold hioOpenCallbacks cbopen
+    cases valid
+    · cases hasClose <;> simp [World.close, List.count_cons]
+    · simp only [Bool.not_true, Bool.false_eq_true, if_false]
+      rcases alloc_cases w ⟨.cbfile, 0⟩ with ha | ha <;> rw [ha]
+      · cases hasClose <;> simp [World.close, List.count_cons]
+      · simp only
+        generalize hw1 : ({ w with oracle := w.oracle.tail, nalloc := w.nalloc + 1, live := ⟨.cbfile, 0⟩ :: w.live } : World) = w1
+        have h1 : w1.live = ⟨.cbfile, 0⟩ :: w.live ∧ w1.bad = w.bad ∧ w1.closed = w.closed ∧ w1.openFds = w.openFds := by
+          subst hw1; simp
+        obtain ⟨l1, b1, c1, f1⟩ := h1
+        rcases alloc_cases w1 ⟨.hio, 0⟩ with hb | hb <;> rw [hb]
+        · cases hasClose <;> simp [cbclose, World.close, World.free, l1, b1, c1, f1, List.count_cons]
+        · cases hasClose <;> cases szOk <;>
+            simp [reopenSeq, hioClose, hioCloseInternal, cbclose, World.close, World.free, l1, b1, c1, f1,
+              List.count_cons, List.erase_cons]
+
+/-- non-trivial instances with reopens (evaluated, not general): a caller's FILE that is unpacked
+twice in memory is never closed; a path load through an internal depacker and then an external
+helper closes the owned FILE and the temp FILE once each -/
+example :
+    ((streamLife .file {} true [(true, true), (true, true)] {}).2.closed.count .callerFile = 0) ∧
+    ((streamLife .file {} true [(true, true), (true, true)] {}).2.live = []) ∧
+    ((streamLife .path {} true [(true, true), (false, true)] {}).2.closed = [.tempFile, .ownedFile]) ∧
+    ((streamLife .path {} true [(true, true), (false, true)] {}).2.openFds = 0) ∧
+    ((streamLife .cb {} true [] { oracle := [true, false] }).2.closed = [.callback]) := by decide +kernel
+
 end Xmp.Resource
